@@ -433,6 +433,26 @@ Theorem BE_accepts_exactly_the_published_rule c : valid_BE c = true <-> c = [] \
 Proof. exact (valid_BE_iff_spec c). Qed.
 Print Assumptions BE_accepts_exactly_the_published_rule.
 
+(* the enterprise numbers issued since 2023 start with 1: each one carrying the right key is accepted,
+   and no other leading digit than 0 or 1 is *)
+Theorem BE_accepts_every_number_starting_with_1_that_has_the_right_key c :
+  List.length c = 10%nat -> digits_between c 0 10 -> dig c 0 = 1 ->
+  number c 8 10 = 97 - (number c 0 8) mod 97 -> valid_BE c = true.
+Proof. exact (valid_BE_leading_1 c). Qed.
+Print Assumptions BE_accepts_every_number_starting_with_1_that_has_the_right_key.
+
+Theorem BE_ten_digit_numbers_start_with_0_or_1 c :
+  valid_BE c = true -> List.length c = 10%nat -> dig c 0 = 0 \/ dig c 0 = 1.
+Proof. exact (valid_BE_leading_digit c). Qed.
+Print Assumptions BE_ten_digit_numbers_start_with_0_or_1.
+
+Example BE_numbers_starting_with_1_exist :
+  (List.length (bs "1000000021") = 10%nat /\ digits_between (bs "1000000021") 0 10 /\ dig (bs "1000000021") 0 = 1 /\
+   number (bs "1000000021") 8 10 = 97 - (number (bs "1000000021") 0 8) mod 97) /\
+  valid_BE (bs "1000000021") = true /\ valid_BE (bs "1000123448") = true /\ valid_BE (bs "1012345646") = true /\
+  valid_BE (bs "1000123449") = false /\ valid_BE (bs "2000000042") = false /\ valid_BE (bs "0012345625") = false.
+Proof. exact be_leading_1_witnesses. Qed.
+
 Theorem NL_accepts_exactly_the_published_rule c : valid_NL c = true <-> c = [] \/ Spec_NL c.
 Proof. exact (valid_NL_iff_spec c). Qed.
 Print Assumptions NL_accepts_exactly_the_published_rule.
